@@ -171,7 +171,7 @@ def datetimes(dialect=None):
 
 
 ODL_UNITS = ["m", "KM", "m/s", "km**2", "m*s**-1", "deg", "pixel", "m/s/s",
-             "kg*m**2", "DEGREES", "W/(m**2)"]
+             "kg*m**2", "DEGREES", "W/(m**2)", "km\t/ s", "m /\ts", "m / s"]
 PVL_UNITS = ODL_UNITS + ["m s", "km per s", "%", "a.b", "deg C", "1/s", "µm",
                          "m^2", "'", "it's", "a=b", "(", "#"]
 
